@@ -295,6 +295,9 @@ class Check:
         if not ok:
             self.obligations.append((f"lake build {target}", False, log[-2000:]))
             self.build_log = log
+            if not generated_changed:
+                # nothing the build reads comes from /repo: a broken build is my error, never a violation
+                raise Infra(f"lake build {target} failed:\n{log[-3000:]}")
             return False
         self.obligations.append((f"lake build {target}", True, ""))
         hits = grep_forbidden(self.id)
